@@ -142,7 +142,7 @@ func CheckFunc(P *Program, fn *ssa.Function, c *FuncContract) (rep *FuncReport) 
 	rep.pre = &EvalCtx{ex: ex, st: ex.old, old: ex.old, vars: vars, pkgPath: c.PkgPath}
 	var reqs []*Term
 	for _, r := range c.Requires {
-		t := ex.evalBool(pre, r)
+		t := ex.evalAssume(pre, r)
 		reqs = append(reqs, t)
 		ex.facts = append(ex.facts, t)
 	}
@@ -293,6 +293,18 @@ func (ex *Exec) obligeNamed(st *State, kind, label, detail string, goal *Term, p
 
 // symbolicInput creates an unconstrained, well-typed input value.
 func (ex *Exec) symbolicInput(st *State, name string, t types.Type) *Term {
+	if _, isSlice := t.Underlying().(*types.Slice); isSlice {
+		// a slice parameter is modelled as starting at offset 0 of its backing array (aliasing between overlapping
+		// input slices is not modelled); indexing it then needs no offset arithmetic
+		p := ex.p
+		v := p.Mk(ex.tm.SliceS, p.Const(name+".ref", IntSort), p.Int(0), p.Const(name+".len", IntSort), p.Const(name+".cap", IntSort))
+		ex.facts = append(ex.facts, ex.tm.InRange(v, t, 0))
+		ex.pointerBound(st, v, t)
+		ex.inputs[name+".ref"] = p.Acc(v, 0)
+		ex.inputs[name+".len"] = p.Acc(v, 2)
+		ex.assumptions["input slices are modelled at offset 0 of their backing array (overlapping input slices are not modelled)"] = true
+		return v
+	}
 	v := ex.p.Const(name, ex.tm.SortOf(t))
 	ex.facts = append(ex.facts, ex.tm.InRange(v, t, 0))
 	ex.pointerBound(st, v, t)
